@@ -14,6 +14,7 @@
 package vt
 
 import (
+	"bytes"
 	"encoding/binary"
 	"encoding/json"
 	"fmt"
@@ -24,6 +25,7 @@ import (
 	"strings"
 	"sync"
 	"testing"
+	"time"
 
 	"pgregory.net/rapid"
 )
@@ -199,11 +201,32 @@ func Main[C any](t *testing.T, sp Spec[C]) {
 		st.flush()
 	}()
 	nfail := 0
+	// rapid checks its shrink deadline only between passes; a single pass over a
+	// case whose failing runs are slow (confirmed hangs) can overrun it by far.
+	// After the budget the wrapper stops executing shrink candidates (they are
+	// reported as passing, i.e. rejected) and answers the final re-run of the
+	// minimal case from the cached verdict.
+	budget := 30 * time.Second
+	if b := os.Getenv("VERIF_SHRINK_BUDGET_S"); b != "" {
+		var n int
+		if _, err := fmt.Sscanf(b, "%d", &n); err == nil && n > 0 {
+			budget = time.Duration(n) * time.Second
+		}
+	}
+	var firstFail time.Time
+	var lastFailJSON []byte
+	var lastFailMsg string
 	rapid.Check(t, func(rt *rapid.T) {
 		c := sp.Gen(rt)
 		cb, err := json.Marshal(c)
 		if err != nil {
 			t.Fatalf("harness: case not serialisable: %v", err)
+		}
+		if !firstFail.IsZero() && time.Since(firstFail) > budget {
+			if bytes.Equal(cb, lastFailJSON) {
+				rt.Fatalf("%s", lastFailMsg)
+			}
+			return
 		}
 		if sp.TrackCurrent && out != "" {
 			_ = os.WriteFile(filepath.Join(out, "current.json"), cb, 0o644)
@@ -253,7 +276,12 @@ func Main[C any](t *testing.T, sp Spec[C]) {
 			_ = os.WriteFile(filepath.Join(out, "fail-verdict.json"), mustJSON(v), 0o644)
 		}
 		nfail++
-		rt.Fatalf("VIOLATION key=%s: %s", v.Key, v.Msg)
+		if firstFail.IsZero() {
+			firstFail = time.Now()
+		}
+		lastFailJSON = cb
+		lastFailMsg = fmt.Sprintf("VIOLATION key=%s: %s", v.Key, v.Msg)
+		rt.Fatalf("%s", lastFailMsg)
 	})
 }
 
